@@ -144,7 +144,7 @@ def runHolder (_prop : String) (f : List String) (obsS : String) : Verdict :=
   match f with
   | [_, progsS, schedS] =>
     if obsS == "hook-guard-off" then badCase else
-    let progs := progsS.splitOn "/"
+    let progs := ((if progsS.startsWith "D:" then (progsS.drop 2).toString else progsS)).splitOn "/"
     let sched := (splitList schedS ",").filterMap String.toNat?
     let model := modelRun Ords.source (progs.map parseProg) sched
     let v := ckObs progs obsS
